@@ -721,7 +721,7 @@ def run(ctx):
     consts = {"SHAPE": shape, "ALLOWKNOWN": "TRUE" if known_model else "FALSE", "MSHAPE": ms if ms != "unknown" else "locked",
               "PSHAPE": ps if ps != "unknown" else "locked", "PRECHECK": "TRUE" if precheck else "FALSE", "UNREGSHAPE": unreg}
     lim = dict(max_scen=3000, max_groups=1000, per_group=300, max_lines=600, timeout=900) if thorough else \
-        dict(max_scen=120, max_groups=8, per_group=25, max_lines=250, timeout=120)
+        dict(max_scen=120, max_groups=6, per_group=25, max_lines=250, timeout=120)
     iv = impl_validate(ctx, [(tf, label) for tf, label in traces if label in ("scripts", "random")], consts, **lim)
     ctx.extra["impl_trace"] = {"scenarios": iv["scenarios"], "accepted": iv["accepted"], "drift": iv["drift"],
                                "drift_count": iv["drift_count"], "stats": {k: v for k, v in iv.items() if k != "drift"}}
